@@ -35,6 +35,22 @@ TAGRE = re.compile(r'^\[([A-Za-z0-9_, ]+)\]\s*')
 
 TEMPLATES = {}
 
+def split_args(s):
+    """split template arguments at top-level commas (parentheses and brackets nest; < and > are operators here)"""
+    out = []; depth = 0; cur = ''
+    for ch in s:
+        if ch in '([':
+            depth += 1
+        elif ch in ')]':
+            depth -= 1
+        if ch == ',' and depth == 0:
+            out.append(cur.strip()); cur = ''
+        else:
+            cur += ch
+    if cur.strip():
+        out.append(cur.strip())
+    return out
+
 def expand_templates(lines, path):
     """template NAME(a, b) ... end  /  use NAME(x, y): textual clause templates"""
     out = []
@@ -53,15 +69,17 @@ def expand_templates(lines, path):
             if m.group(2) not in TEMPLATES:
                 raise SyntaxError('%s:%d: unknown template %s' % (path, i + 1, m.group(2)))
             params, body = TEMPLATES[m.group(2)]
-            from cxxtypes import split_top
-            args = split_top(m.group(3))
+            args = split_args(m.group(3))
             if len(args) != len(params):
                 raise SyntaxError('%s:%d: template %s takes %d arguments' % (path, i + 1, m.group(2), len(params)))
+            sub = []
+            base = min([len(b) - len(b.lstrip()) for b in body if b.strip()] or [0])
             for b in body:
-                t = b
+                t = b[base:] if b.strip() else ''
                 for pn, a in zip(params, args):
-                    t = re.sub(r'\b%s\b' % re.escape(pn), a, t)
-                out.append(m.group(1) + t.strip())
+                    t = re.sub(r'\b%s\b' % re.escape(pn), lambda _m, a=a: a, t)
+                sub.append(m.group(1) + t.rstrip())
+            out.extend(expand_templates(sub, path))      # templates may use templates
             i += 1; continue
         out.append(lines[i]); i += 1
     return out
